@@ -55,13 +55,14 @@ type transplant struct {
 
 type config struct {
 	Transplants []transplant
-	Repo     string
-	Out      string
-	Overlay  string   // /verif/overlay
-	Patterns []string // packages to instrument
-	Subst    []substRule
-	SyncPkgs []string // packages whose sync points are rewritten
-	Report   bool
+	Repo        string
+	Out         string
+	Overlay     string   // /verif/overlay
+	Patterns    []string // packages to instrument
+	Subst       []substRule
+	SyncPkgs    []string                     // packages whose sync points are rewritten
+	Touch       map[string]map[string]string // package (relative) -> receiver type name -> probe kind
+	Report      bool
 }
 
 const modPrefix = "github.com/containers/nri-plugins/"
@@ -81,6 +82,8 @@ func main() {
 	flag.StringVar(&syncs, "sync", "", "comma-separated package paths (relative) whose sync points are rewritten")
 	flag.StringVar(&substFile, "subst", "", "JSON file with substitution rules")
 	flag.BoolVar(&cfg.Report, "report", false, "print a report of rewritten sites")
+	var touches string
+	flag.StringVar(&touches, "touch", "", "comma-separated pkg:recvType:kind triples: methods of *recvType get an access probe")
 	var transplants string
 	flag.StringVar(&transplants, "transplant", "", "comma-separated src:dst:pkg triples")
 	flag.Parse()
@@ -99,6 +102,20 @@ func main() {
 	}
 	if syncs != "" {
 		cfg.SyncPkgs = strings.Split(syncs, ",")
+	}
+	cfg.Touch = map[string]map[string]string{}
+	if touches != "" {
+		for _, t := range strings.Split(touches, ",") {
+			f := strings.Split(t, ":")
+			if len(f) != 3 {
+				fatalf("bad -touch entry %q", t)
+			}
+			pkg := strings.TrimPrefix(f[0], "./")
+			if cfg.Touch[pkg] == nil {
+				cfg.Touch[pkg] = map[string]string{}
+			}
+			cfg.Touch[pkg][f[1]] = f[2]
+		}
 	}
 	if substFile != "" {
 		b, err := os.ReadFile(substFile)
@@ -291,17 +308,18 @@ func run(cfg *config) error {
 }
 
 type rewriter struct {
-	cfg     *config
-	pkg     *packages.Package
-	file    *ast.File
-	fset    *token.FileSet
-	st      *stats
-	sync    bool
-	fname   string
-	needRT  bool
-	extra   map[string]bool
-	changed bool
-	err     error
+	cfg      *config
+	pkg      *packages.Package
+	file     *ast.File
+	fset     *token.FileSet
+	st       *stats
+	sync     bool
+	fname    string
+	needRT   bool
+	extra    map[string]bool
+	changed  bool
+	err      error
+	parentOf map[ast.Node]ast.Node
 }
 
 func (rw *rewriter) site(pos token.Pos) string {
@@ -356,7 +374,13 @@ func (rw *rewriter) rewrite() (bool, error) {
 		}
 	}
 
-	pre := func(c *astutil.Cursor) bool { return true }
+	rw.parentOf = map[ast.Node]ast.Node{}
+	pre := func(c *astutil.Cursor) bool {
+		if c.Node() != nil && c.Parent() != nil {
+			rw.parentOf[c.Node()] = c.Parent()
+		}
+		return true
+	}
 	post := func(c *astutil.Cursor) bool {
 		switch n := c.Node().(type) {
 		case *ast.RangeStmt:
@@ -409,6 +433,12 @@ func (rw *rewriter) rewrite() (bool, error) {
 			if rw.sync {
 				rw.rewriteGo(c, n)
 			}
+		case *ast.UnaryExpr:
+			if rw.sync && n.Op == token.ARROW {
+				rw.rewriteRecv(c, n)
+			}
+		case *ast.FuncDecl:
+			rw.insertTouch(n)
 		case *ast.CallExpr:
 			if rw.rewriteMethodCall(c, n, rules) {
 				return true
@@ -592,6 +622,67 @@ func (rw *rewriter) rewriteGo(c *astutil.Cursor, n *ast.GoStmt) {
 	}}
 	blk := &ast.BlockStmt{List: append(assigns, goCall)}
 	c.Replace(blk)
+	rw.st.Syncs++
+	rw.changed = true
+}
+
+// rewriteRecv: <-ch (single-value receive outside select) -> verifrt_.Recv(ch, "site")
+func (rw *rewriter) rewriteRecv(c *astutil.Cursor, n *ast.UnaryExpr) {
+	switch p := c.Parent().(type) {
+	case *ast.CommClause:
+		return // select case: left alone (only the daemon event loop has them)
+	case *ast.AssignStmt:
+		if len(p.Lhs) == 2 && len(p.Rhs) == 1 {
+			if _, inSelect := rw.parentOf[p].(*ast.CommClause); inSelect {
+				return
+			}
+			rw.err = fmt.Errorf("%s: two-value channel receive in a sync package is not supported", rw.site(n.Pos()))
+			return
+		}
+		if _, inSelect := rw.parentOf[p].(*ast.CommClause); inSelect {
+			return
+		}
+	case *ast.ExprStmt:
+		if _, inSelect := rw.parentOf[p].(*ast.CommClause); inSelect {
+			return
+		}
+	}
+	c.Replace(&ast.CallExpr{
+		Fun:  rw.rtSel("Recv"),
+		Args: []ast.Expr{n.X, &ast.BasicLit{Kind: token.STRING, Value: strconv.Quote(rw.site(n.Pos()))}},
+	})
+	rw.st.Syncs++
+	rw.changed = true
+}
+
+// insertTouch: methods of the configured receiver types start with an access
+// probe (C15 mutual-exclusion monitor).
+func (rw *rewriter) insertTouch(n *ast.FuncDecl) {
+	rel := strings.TrimPrefix(rw.pkg.PkgPath, modPrefix)
+	kinds := rw.cfg.Touch[rel]
+	if kinds == nil || n.Recv == nil || len(n.Recv.List) != 1 || n.Body == nil {
+		return
+	}
+	t := n.Recv.List[0].Type
+	if st, ok := t.(*ast.StarExpr); ok {
+		t = st.X
+	}
+	id, ok := t.(*ast.Ident)
+	if !ok {
+		return
+	}
+	kind, ok := kinds[id.Name]
+	if !ok {
+		return
+	}
+	probe := &ast.ExprStmt{X: &ast.CallExpr{
+		Fun: rw.rtSel("Touch"),
+		Args: []ast.Expr{
+			&ast.BasicLit{Kind: token.STRING, Value: strconv.Quote(kind)},
+			&ast.BasicLit{Kind: token.STRING, Value: strconv.Quote(id.Name + "." + n.Name.Name)},
+		},
+	}}
+	n.Body.List = append([]ast.Stmt{probe}, n.Body.List...)
 	rw.st.Syncs++
 	rw.changed = true
 }
